@@ -364,6 +364,54 @@ pub fn run(out: &mut Out, tier: &str, seed: u64) {
             }
         }
     }
+    // 2c. holes of different depths against each other, and solved holes under binders:
+    //  (i)  X^s against a term that contains an UNSOLVED hole Y^t with t < s: X's solution would have to mention Y,
+    //       which lives in a deeper scope than X — unification must fail (and certainly must not answer true while
+    //       recording nothing: then the two sides are simply different);
+    //  (ii) X^1 against `x => C^1` where the SOLVED cell C holds a variable: seen from under the binder the variable
+    //       is one higher; lowering it to X's scope works iff it does not become the bound `x`.
+    for s in 1..4usize {
+        for t in 0..s {
+            for wrap in 0..3 {
+                let x: Cell = Rc::new(RefCell::new(None));
+                let y: Cell = Rc::new(RefCell::new(None));
+                let hx = Term { source_range: None, variant: Variant::Unifier(x.clone(), s) };
+                let hy = Term { source_range: None, variant: Variant::Unifier(y.clone(), t) };
+                let rhs = match wrap { 0 => mk::app(mk::var("f", s + 1), hy), 1 => mk::pi("_", false, hy, mk::int()), _ => Term { source_range: None, variant: Variant::Negation(Rc::new(hy)) } };
+                let (a, b) = if (s + t + wrap) % 2 == 0 { (hx, rhs) } else { (rhs, hx) };
+                let mut dctx: DCtx = vec![None; s + 2];
+                if !out.begin(&format!("unify: hole of shift {s} against a term with an unsolved hole of shift {t}, wrap {wrap}")) { continue; }
+                let holes = vec![(x.clone(), 0, s), (y.clone(), if wrap == 1 { 0 } else { 0 }, t)];
+                let r = unify_case(out, &mut names, &a, &b, &mut dctx, "cross-shift", &holes, Some(false));
+                if r == Some(true) && !syntactically_equal(&a, &b) {
+                    let mut ss = StoreSer::new();
+                    let (sa, sb) = (ss.term(&mut names, &a), ss.term(&mut names, &b));
+                    let st = ss.store(&mut names);
+                    out.hit("C12", "unify-answered-true-but-the-sides-differ", &format!("unify {st} (DC) {sa} {sb}"),
+                            &format!("no reduction is involved: after a successful unification the two sides must be syntactically equal (hole of shift {s}, inner unsolved hole of shift {t})"));
+                }
+            }
+        }
+    }
+    for j in 0..3usize {
+        for extra in 0..2usize {
+            let x: Cell = Rc::new(RefCell::new(None));
+            let c: Cell = Rc::new(RefCell::new(Some(mk::var("v", j))));
+            let hx = Term { source_range: None, variant: Variant::Unifier(x.clone(), 1) };
+            let hc = Term { source_range: None, variant: Variant::Unifier(c.clone(), 1 + extra) };
+            // under `extra` further binders inside the lambda body
+            let mut body = hc;
+            for _ in 0..extra { body = mk::lam("w", false, mk::int(), body); }
+            let b = mk::lam("x", false, mk::int(), body);
+            let mut dctx: DCtx = vec![None; 4];
+            if !out.begin(&format!("unify: hole of shift 1 against a lambda whose body is a solved hole (solution variable {j}), {extra} inner binders")) { continue; }
+            // C's solution lives outside the lambda (and outside the `extra` inner binders): variable j there is variable
+            // j + 1 + extra at the occurrence; lowered by 1 to X's scope it is j + extra (>= the binders crossed) iff j >= 1
+            let holes = vec![(x.clone(), 0, 1)];
+            let _ = unify_case(out, &mut names, &hx, &b, &mut dctx, "solved-under-binder", &holes, Some(j >= 1));
+            let _ = unify_case(out, &mut names, &b, &hx, &mut dctx, "solved-under-binder", &holes, None);
+        }
+    }
     // 3. G-prog programs as instances: holes punched into parser-produced terms
     let np = if tier == "thorough" { 6000 } else { 600 };
     for i in 0..np {
